@@ -216,10 +216,10 @@ def main():
                 tol = 1e-9 * (abs(a) + abs(b) + abs(d)) + 1e-12
                 if abs(a) > 1e-9:
                     c.nontriv("sym:%s:%s" % (m["id"], q))
-                if abs(a + b) > tol:
+                if not (abs(a + b) <= tol):
                     c.violation("%s: chi_%s%s + chi_%s%s = %s (first exchange symmetry)" % (m["id"], q, t, [q[1], q[0], q[2], q[3]], [n2, n1, n3], a + b),
                                 {"model": m, "quad": q, "triple": t}, cls="symmetry:12")
-                if abs(a + d) > tol:
+                if not (abs(a + d) <= tol):
                     c.violation("%s: chi_%s%s + chi_%s%s = %s (second exchange symmetry)" % (m["id"], q, t, [q[0], q[1], q[3], q[2]], [n1, n2, n1 + n2 - n3], a + d),
                                 {"model": m, "quad": q, "triple": t}, cls="symmetry:34")
     c.rule = ("every transition of the bounded state graph of Container4.tla (2 modes, 5 index sets, depth 3) replayed; %d random histories on "
